@@ -166,6 +166,10 @@ def cell_programs(configs):
             for cfg in (base, le):
                 out.append(("cks-%d" % k, cells_cks(cfg, cksw, spell)))
                 k += 1
+    # checksum POSITION x nesting: first / middle / last field of a referenced packet, an inline object,
+    # a match payload and a list element, all written after other bytes of the enclosing message
+    for k, cfg in enumerate((base, le)):
+        out.append(("ckspos-%d" % k, cells_cks_positions(cfg)))
     k = 0
     for keyty in ["u8", "u16", "u32", "u64", "i8", "i16", "i32", "i64", "string", "char[4]"]:
         for cfg in (base, le):
@@ -213,6 +217,46 @@ root packet Frame {
     u8 tail,
 }
 """ % (c.replace("Checksum", "SubSum"), c)
+
+
+def cells_cks_positions(cfg):
+    o = options_block(cfg)
+    return o + """packet First {
+    u32 Sum1 @calculatedFrom("CRC32"),
+    u8 EndMark,
+}
+packet Middle {
+    u8 m1,
+    u16 Sum2 @calculatedFrom("CRC16"),
+    u8 m2,
+}
+packet Last {
+    u8 l1,
+    u32 Sum3 @calculatedFrom("CRC32"),
+}
+packet Only {
+    u16 Sum4 @calculatedFrom("CRC16"),
+}
+root packet Msg {
+    u16 MsgType,
+    string Payload,
+    First,
+    Middle mid,
+    Inl {
+        u32 Sum5 @calculatedFrom("CRC32"),
+        u8 x,
+    },
+    repeat First firsts,
+    u8 K,
+    match K as Body {
+        1 : First,
+        2 : Only,
+        3 : Last,
+    },
+    Last,
+    u32 Total @calculatedFrom("CRC32"),
+}
+"""
 
 
 def cells_match(cfg, keyty):
@@ -370,4 +414,10 @@ def layout_programs():
     P.append(("det-acronyms", "packet MDSnapshotZZ {\n    u8 a,\n}\npacket OrderACK {\n    u16 b,\n}\npacket HTTPServerInfo {\n    string s,\n}\nroot packet FIXMsg {\n    u8 KType,\n    MDSnapshotZZ,\n    repeat OrderACK,\n    match KType as Body {\n        1 : HTTPServerInfo,\n        2 : OrderACK,\n    },\n}\n"))
     P.append(("det-name-collision", "packet FooBar {\n    u8 a,\n}\npacket foo_bar {\n    u16 b,\n}\nroot packet R {\n    FooBar,\n    foo_bar,\n}\n"))
     P.append(("det-refs", "packet P1 {\n    u8 a,\n}\npacket P2 {\n    P1,\n}\npacket P3 {\n    P2,\n    P1,\n}\npacket P4 {\n    repeat P3,\n    P2,\n}\nroot packet P5 {\n    P4,\n    P3,\n    P1,\n    u8 K,\n    match K as Body {\n        4 : P4,\n        3 : P3,\n        2 : P2,\n        1 : P1,\n    },\n}\n"))
+    # declaration ORDER: the root packet first / in the middle (forward references; code that filters or
+    # partitions the packet list sees a different arrangement than "root last")
+    P.append(("det-root-first", "root packet Frame {\n    u8 K,\n    Logon first,\n    match K as Body {\n        1 : Logon,\n        2 : Logout,\n    },\n}\npacket Logon {\n    string user,\n}\npacket Logout {\n    u16 reason,\n}\n"))
+    P.append(("det-root-middle", "packet Logon {\n    string user,\n}\nroot packet Frame {\n    u8 K,\n    match K as Body {\n        1 : Logon,\n        2 : Logout,\n    },\n    Tail,\n}\npacket Logout {\n    u16 reason,\n}\npacket Tail {\n    u32 crc,\n}\n"))
+    # a NON-root packet with several match fields on different keys, declared BEFORE its target packets
+    P.append(("det-nonroot-matches", "packet Frame {\n    u8 HK,\n    u8 BK,\n    u8 TK,\n    match HK as Hdr {\n        1 : HdrA,\n        2 : HdrB,\n    },\n    match BK as Body {\n        1 : BodyA,\n        2 : BodyB,\n    },\n    match TK as Trl {\n        1 : TrlA,\n    },\n}\npacket HdrA {\n    u8 a,\n}\npacket HdrB {\n    u16 b,\n}\npacket BodyA {\n    u32 c,\n}\npacket BodyB {\n    u64 d,\n}\npacket TrlA {\n    u8 e,\n}\nroot packet Msg {\n    Frame,\n    u8 x,\n}\n"))
     return P
